@@ -95,7 +95,7 @@ REQUIRED_REACH = ["two-workers-alive-at-once", "empty-chunk:more-threads-than-pa
                   "schedule-realised", "nthreads=1", "nthreads=pairs+2", "workers-spawned:decorator",
                   "workers-spawned:numpy-int", "one-form-object-many-bases",
                   "local-function-zero-value-nonzero-gradient", "slow-integrand",
-                  "big-block:pairs>127", "big-block:pairs>255", "big-block:workers>255", "zero-size-basis",
+                  "big-block:pairs>127", "big-block:local-functions>127", "big-block:local-functions>255", "big-block:pairs>255", "big-block:workers>255", "zero-size-basis",
                   "entry-point-yield-injected", "parameter-kind:params-df", "parameter-kind:params-tuple",
                   "parameter-kind:params-complex", "numpy-parallel:thousands-of-cells",
                   "kernels-of-different-workers-overlap-in-time", "join-timeouts-expire:active"]
@@ -239,6 +239,11 @@ BIG = [  # > 64 pairs (free-running only): a flattened pair index / chunk arithm
     ("hex", "ElementHex2()", None, "cell"),                            # 27 x 27 = 729
     ("hex", "ElementHex2()", "ElementHex1()", "cell"),                 # 27 x 8 = 216, rectangular
     ("tet", "ElementVector(ElementTetP2())", None, "cell"),            # 30 x 30 = 900
+    # more than 128 (and, with degree 16, more than 256) LOCAL functions on one side: local indices beyond a signed / an
+    # unsigned byte, at the price of a few hundred pairs
+    ("quad", "ElementQuadP(11)", "ElementQuad1()", "cell"),            # 144 x 4 = 576
+    ("quad", "ElementQuad1()", "ElementQuadP(11)", "cell"),            # 4 x 144 = 576
+    ("quad", "ElementQuadP(16)", "ElementQuad0()", "cell"),            # 289 x 1 = 289
 ]
 BIG_THREAD_CAP = 460    # OS threads alive at once: ~1500 can fail with "can't start new thread" on correct code
 FORMS_REAL = ["convect", "mass-x", "h-weighted", "params"]
@@ -933,6 +938,10 @@ def fam_big(ctx, k):
                 return
             raise
         hashes.add((nth, evaluate(ctx, cfg, ref, h, A, nth, "kernel", how)))
+        if max(cfg.ub.Nbfun, cfg.vb.Nbfun) > 127:
+            ctx.reached("big-block:local-functions>127")
+        if max(cfg.ub.Nbfun, cfg.vb.Nbfun) > 255:
+            ctx.reached("big-block:local-functions>255")
         if n > 127:
             ctx.reached("big-block:pairs>127")
         if n > 255:
